@@ -90,6 +90,7 @@ var registry = map[string]propDef{
 	"C20o": {"other", props.C06kept},
 	"C17i": {"other", props.C17kept},
 	"C05i": {"other", props.C17kept},
+	"C05j": {"other", props.C05kept},
 	"C11i": {"other", props.C11kept},
 	"C18i": {"other", props.C18kept},
 	"C06w": {"other", props.OTwindows},
